@@ -72,3 +72,24 @@ package server
 //@   ensures [serving-leader] result == nil ==> s.isServing != 0 && lastok("Check") && last("Check") > old(evclock[0])
 //@   ensures [leader-is-me] result == nil ==> s.member.leader.v != nil && asptr(s.member.leader.v, pdpb.Member).MemberId == s.member.member.MemberId
 //@   modifies ghost evres
+
+// ---- C15: GC safe points never move backwards ----
+// Not verified here (no effect on the ghost kv store): request forwarding plumbing.
+//@ opaque (*Server).getDelegateClient, (*Server).isLocalRequest, getForwardedHost
+
+//@ pure reqOK(s *Server) = s.member != nil && s.member.member != nil && s.member.member.MemberId != 0 && (s.member.leadership == nil || leaseTyped(s.member.leadership)) && (s.member.leader.v == nil || typeisptr(s.member.leader.v, pdpb.Member)) && ErrNotLeader != nil
+
+// The stored safe point only grows and every successful response is at least the value stored when the
+// request began. Other requests may change the stored value between any two storage actions of this one
+// (rely: it only grows) unless the safe-point lock is held; the value written must not be below the value
+// stored at the moment of the write (guarantee).
+//@ func (*Server).UpdateGCSafePoint
+//@   props C15
+//@   requires request != nil && reqOK(s) && s.storage != nil && s.cluster != nil && gcParsable()
+//@   interfere LoadGCSafePoint, SaveGCSafePoint unless held s.gcSafePointLock : gcStored() >= old(gcStored()) && gcParsable()
+//@   at SaveGCSafePoint 1 assert [guarantee-mono] newSafePoint >= gcStored()
+//@   ensures [stored-mono] gcStored() >= old(gcStored())
+//@   ensures [resp0] r1 == nil && r0 != nil && last("LoadGCSafePoint") > old(evclock[0]) ==> r0.NewSafePoint >= old(gcStored())
+//@   ensures [resp1] r1 == nil && r0 != nil && last("LoadGCSafePoint") > old(evclock[0]) ==> r0.NewSafePoint >= request.SafePoint
+//@   ensures [resp2] r1 == nil && r0 != nil && last("LoadGCSafePoint") > old(evclock[0]) ==> r0.NewSafePoint <= gcStored()
+//@   modifies *
